@@ -48,6 +48,10 @@ RULE = ("Documents = 27 feature shapes (plain scenarios, outlines with 0-2 examp
         "locations, two files, absolute paths, @listfile) must select, per file, exactly the union of what its "
         "locations select when given alone as plain arguments. One file through two spellings/sources (9 sources x 9 sources x 4 line "
         "pairs on 2 document pairs quick / 8 thorough): loaded once, union, each scenario once, first-mention order. "
+        "Direct use of FeatureLineDatabase / FeatureScenarioLocationCollector2 (6 documents quick "
+        "/ 24 thorough): for every line L the list returned by select_scenarios_by_line(L) is mutated in place "
+        "(extend with another line's result, clear, remove first, reverse); afterwards every selection through the "
+        "same database, a new database, build_feature() and walk_scenarios() must equal that of a freshly parsed copy. "
         "Name selection: each scenario name, its words and "
         "substrings, ^name$, alternations and two --name options, on every document. FileLocationParser / "
         "FeatureListParser on name, name:N, name:0, padded. A selection is non-trivial (and counted distinct by "
@@ -61,6 +65,7 @@ ASSUMPTIONS = [
     "a file named in two non-adjacent positions of a location list may be loaded twice; demanded is only that, per file, the scenarios executed at least once are exactly the union of the selections",
     "scenario names used by the name-selection oracle are the names behave reports (outline rows: default annotation schema)",
     "harness discipline: the model objects that are run are never read by the check between parsing and ModelRunner.run() (walking a feature expands its outlines and fills ScenarioOutline's cache); expected sets come from the rendered document, should_skip and names from a second, separately parsed/loaded copy, executed scenarios are identified by (file, line, name) reported by the step functions, statuses are read after the run",
+    "collections returned by the public selection API (select_scenarios_by_line) belong to the caller: mutating them must not change the model (differential against a freshly parsed copy; no identity is demanded)",
     "wildcards in @listfile entries and Windows drive letters in locations are not covered",
 ]
 
@@ -873,6 +878,102 @@ def spelling_cases(dockeys_pairs, sources):
             yield ("spell", (dka, dkb), sels[i:i + 27])
 
 
+# ---- direct use of the public FeatureLineDatabase / FeatureScenarioLocationCollector2 ----------------------------
+MUTATIONS = ("extend", "clear", "remove-first", "reverse")
+
+
+def check_direct_api(case):
+    """case = ("api", dockey, [line, ...]).  The collections these classes RETURN are the caller's to change: after
+    r = db.select_scenarios_by_line(L) has been mutated in place, every later selection (same database, a new
+    database over the same model, FeatureScenarioLocationCollector2.build_feature, feature.walk_scenarios) must give
+    what a freshly parsed copy of the document gives.  Differential oracle; nothing about object identity."""
+    from behave.parser import parse_feature
+    from behave.model_core import FileLocation
+    from behave.runner_util import FeatureLineDatabase, FeatureScenarioLocationCollector2
+    _, dockey, lines = case
+    doc = render(dockey)
+    all_lines = list(range(0, doc.nlines + 2))
+    fname = u"features/a.feature"
+
+    def observe(feature, db, L):
+        """everything a later reader can ask, as plain line numbers"""
+        obs = [("select_scenarios_by_line", tuple((l2, tuple(s.line for s in db.select_scenarios_by_line(l2)))
+                                                   for l2 in all_lines))]
+        db2 = FeatureLineDatabase.make(feature)
+        obs.append(("new-database", tuple((l2, tuple(s.line for s in db2.select_scenarios_by_line(l2)))
+                                          for l2 in all_lines)))
+        obs.append(("walk_scenarios", tuple(s.line for s in feature.walk_scenarios())))
+        collector = FeatureScenarioLocationCollector2(feature, location=FileLocation(fname, L))
+        collector.build_feature()
+        obs.append(("build_feature", tuple((line, bool(s.should_skip)) for line, s in _walk_model(feature))))
+        return obs
+
+    real_out = sys.stdout, sys.stderr
+    sys.stdout = sys.stderr = io.StringIO()
+    results = []
+    try:
+        scen_lines = sorted(doc.scen)
+        for L in lines:
+            fresh_feature = parse_feature(doc.text, filename=fname)
+            want = observe(fresh_feature, FeatureLineDatabase.make(fresh_feature), L)
+            for m in MUTATIONS:
+                sub = ("api", dockey, [L])
+                feature = parse_feature(doc.text, filename=fname)
+                db = FeatureLineDatabase.make(feature)
+                v = []
+                try:
+                    r1 = db.select_scenarios_by_line(L)
+                    before = tuple(s.line for s in r1)
+                    other = [l for l in scen_lines if l not in before]
+                    if m == "extend":
+                        r1.extend(db.select_scenarios_by_line(other[-1] if other else 0))
+                    elif m == "clear":
+                        del r1[:]
+                    elif m == "remove-first":
+                        if r1:
+                            r1.pop(0)
+                    else:
+                        r1.reverse()
+                    got = observe(feature, db, L)
+                except Exception as e:
+                    results.append({"case": sub, "v": [({"subcheck": "direct-api", "clause": "raises",
+                                                         "exc": type(e).__name__, "site": _site(e)},
+                                                        "line %r, %s: %s: %s" % (L, m, type(e).__name__, e))],
+                                    "out": "exc", "dg": ("exc", type(e).__name__)})
+                    continue
+                for (name, g), (_, w) in zip(got, want):
+                    if g != w:
+                        kind = ref_select_line(doc, L)[1]
+                        v.append(({"subcheck": "direct-api", "clause": "model-changed-by-mutating-a-returned-list",
+                                   "seen_through": name, "target": _target_class(kind)},
+                                  "a.feature: r = select_scenarios_by_line(%d) gave lines %r; after r.%s in place, %s "
+                                  "gives %r, a freshly parsed copy gives %r"
+                                  % (L, list(before), m, name, _first_diff(g, w)[0], _first_diff(g, w)[1])))
+                        break
+                results.append({"case": sub, "v": v, "n": 1,
+                                "nt": ("api", dockey, L, m) if before and len(before) < len(scen_lines) else None,
+                                "out": digest(("api", dockey, before)), "dg": (L, m, got)})
+    finally:
+        sys.stdout, sys.stderr = real_out
+    return results
+
+
+def _first_diff(g, w):
+    if isinstance(g, tuple) and isinstance(w, tuple) and len(g) == len(w):
+        for a, b in zip(g, w):
+            if a != b:
+                return a, b
+    return g, w
+
+
+def direct_api_cases(dockeys_list):
+    for dk in dockeys_list:
+        doc = render(dk)
+        ls = list(range(0, doc.nlines + 2))
+        for i in range(0, len(ls), 12):
+            yield ("api", dk, ls[i:i + 12])
+
+
 def name_patterns(doc):
     """pattern lists drawn from the scenario names of the document + regex fragments"""
     names = [doc.scen[l][0] for l in sorted(doc.scen)]
@@ -1200,6 +1301,9 @@ def run(ctx):
         spell_docs += [(QUICK_DOCS[i], QUICK_DOCS[(i + 7) % len(QUICK_DOCS)]) for i in (5, 9, 11, 14, 17, 19)]
     ctx.sweep(check_spellings, spelling_cases(spell_docs, SPELL_SOURCES), chunk=1,
               name="one file, two spellings/sources")
+    api_docs = [QUICK_DOCS[i] for i in ((1, 3, 4, 6, 14, 21) if ctx.quick else range(len(QUICK_DOCS)))]
+    ctx.sweep(check_direct_api, direct_api_cases(api_docs), chunk=1,
+              name="direct API: returned lists mutated in place")
     ctx.sweep(check_names, name_cases(docs), chunk=1, name="name selection")
 
     ctx.guard(len(ctx.nt) > (1500 if ctx.quick else 50000), "enough distinct non-trivial selections")
